@@ -317,6 +317,19 @@ func (s *Swarm) genPlain(rng *vrt.Rand, restartCfg func() *Config) func(r *Runne
 				op.Flag = true
 				op.N = rng.Intn(4)
 			}
+			if rng.Chance(0.3) {
+				// the callback overwrites or deletes keys while the scan is under way (often ones it has not reached yet)
+				for j := 0; j < rng.Range(1, 3); j++ {
+					k := s.key(rng)
+					w := Op{K: "put", Key: k, N: rng.Intn(3)}
+					if rng.Chance(0.4) {
+						w.K = "del"
+					} else {
+						w.Val = s.val(rng, r, len(k))
+					}
+					op.Sub = append(op.Sub, w)
+				}
+			}
 		case "restart", "kill":
 			op.Cfg = restartCfg()
 		case "batch":
